@@ -112,6 +112,8 @@ def worker(job):
     p = case["params"]
     pi = p["pi_method"]
     res["s"] = s_oracle(case, h)
+    for d_ in aggfam.final_vs_estimates(case, h)[:1]:
+        res["s"].append({"what": d_, "kind": "final-table-differs"})
     alphas = p["prediction_intervals"]
     for e in p["estimands"]:
         recs = h["unit"][e]
@@ -190,6 +192,11 @@ def jobs_for(chk):
         else:
             kw.update({"unit_type": "precinct", "dark_group": True})
         jobs.append((rng.randint(0, 2**31), kw))
+    # boundary family: a statewide office whose baseline carries a district column and whose request includes the district table (plain unit ids:
+    # an unexpected unit's district is derived from its id like everybody else's)
+    for i in range(3 if chk.tier == "quick" else 30):
+        jobs.append((rng.randint(0, 2**31), {"pi_method": ["nonparametric", "gaussian", "nonparametric"][i % 3], "office": "P", "unit_type": ["precinct", "county"][i % 2],
+                                             "extra_district": True, "aggregates": ["postal_code", "district", "county_fips", "unit"], "n_unexpected": 1 + i % 2}))
     return jobs
 
 
